@@ -1,6 +1,6 @@
 SPECIFICATION Spec
 CONSTANTS Kind = "forms"
- NMax = 25
+ NMax = 32
  DMax = 12
  LMax = 0
  ScaleSet = {0}
